@@ -371,10 +371,13 @@ def _zip_forms(col, crate, I, gi, selfp, idxp, DIMS, sfx):
     fk = util.fkey
 
     def classify(src):
-        # iter(&X) / into_iter(&X)
-        if not (isinstance(src, tuple) and src and src[0] == "call" and str(src[1]).split("::")[-1] in ("iter", "into_iter")):
+        # iter(&X) / into_iter(&X), or &X itself where zip takes any IntoIterator (`idx.iter().zip(&self.dims)`)
+        if isinstance(src, tuple) and src and src[0] == "ref":
+            a = src
+        elif not (isinstance(src, tuple) and src and src[0] == "call" and str(src[1]).split("::")[-1] in ("iter", "into_iter")):
             return None
-        a = src[2][0]
+        else:
+            a = src[2][0]
         if a[0] == "ref":
             pl = a[1]
             if pl == ("field", selfp, DIMS):
@@ -395,6 +398,25 @@ def _zip_forms(col, crate, I, gi, selfp, idxp, DIMS, sfx):
         col.violation("Y1" + sfx, "%s|loop" % fk(gi), gi.loc(), "get_index neither ranges over 0..D nor zips the index with the extents")
         return
     zev, ka, kb, rev = chain
+    # every position is walked: between the zip and its consumer only order-changing adaptors may sit - a `filter`,
+    # `skip`, `take`, `step_by` .. leaves dimensions out of the offset (extent-1 axes "that never move it" still carry
+    # the bound check, and every later extent still multiplies)
+    dropped = set()
+    for st in I.all_end_states():
+        derived = {zev.res}
+        for e in st.event_list():
+            if e.kind != "call" or not e.args:
+                continue
+            if any(y in derived for y in [e.args[0]] + list(subterms(e.args[0]))):
+                nm_ = e.extra.get("name")
+                if nm_ in ("rev", "into_iter", "by_ref", "enumerate"):
+                    derived.add(e.res)
+                elif nm_ not in ("fold", "next", "for_each", "try_fold", "next_back", "size_hint", "len"):
+                    dropped.add(nm_)
+                    derived.add(e.res)
+    if dropped:
+        col.violation("Y1" + sfx, "%s|range-0..D" % fk(gi), gi.loc(), "the walk over (index, extent) pairs goes through %s: dimensions can be left out of the offset and of the bound check" % ", ".join(sorted(str(x) for x in dropped)))
+        return
     col.ok("Y1" + sfx, gi.loc(), "%s|range-0..D" % fk(gi), "idx and dims (both of length D) are walked in lock step%s" % (", last dimension first" if rev else ""))
     pos = {ka: 0, kb: 1}
     paths = []   # (Interp, facts, old_acc, new_acc, idx_val, dims_val, stride_old, stride_new, init_ok)
